@@ -2,6 +2,7 @@
 // operations receive reported_first + relative index and the zero-based table model (the "twin") must designate the same elements.
 #define VK_MAIN
 #include "../kit/viewprog.hpp"
+#include "../kit/tracked.hpp"
 using namespace vk;
 
 static GenCfg cfg;
@@ -101,6 +102,17 @@ template<int D> void one(Case& c, Prog const& p) {
 		{ multi::array<int, D> Z; op("array-copy-assign(to-empty)"); Z = A; same(Z, "array-copy-assign(to-empty)"); }
 		{ multi::array<int, D> T1(A); multi::array<int, D> Z(make_extensions<D>(p.root), -1); op("array-move-assign"); Z = std::move(T1); same(Z, "array-move-assign"); }
 		{ multi::array<int, D> Z(make_extensions<D>(p.root), -1); op("array-assign-from-view"); Z = A(); same(Z, "array-assign-from-view"); }
+		{ // the same with an allocator that does not propagate and whose instances compare unequal: move assignment / allocator-extended move construction then move the ELEMENTS into a block of their own and must take the index bases along
+			using LA = ledger_alloc<int, 0>; using AL = multi::array<int, D, LA>;
+			auto same_al = [&](AL const& X, char const* what) { if(!(X.extensions() == A.extensions())) violation(std::string("C19:") + what + ":extensions", std::string(what) + " of a re-based array does not report the source's extensions (first indices " + join(firsts_of(X)) + ", source " + join(b) + ")");
+				else { for(L k = 0; k < m.n(); ++k) if(X.data_elements()[k] != int(k)) { violation(std::string("C19:") + what + ":values", std::string(what) + " of a re-based array holds other elements"); break; } } };
+			auto mk = [&](int id) { AL S(exts, LA(id)); for(L k = 0; k < m.n(); ++k) S.data_elements()[k] = int(k); return S; };
+			{ AL S = mk(1); AL Z(make_extensions<D>(p.root), -1, LA(2)); op("array-move-assign(unequal-allocators)"); Z = std::move(S); same_al(Z, "array-move-assign(unequal-allocators)"); }
+			{ AL S = mk(1); AL Z(LA(2)); op("array-move-assign(unequal-allocators,to-empty)"); Z = std::move(S); same_al(Z, "array-move-assign(unequal-allocators,to-empty)"); }
+			{ AL S = mk(1); AL Z(make_extensions<D>(p.root), -1, LA(2)); op("array-copy-assign(unequal-allocators)"); Z = std::as_const(S); same_al(Z, "array-copy-assign(unequal-allocators)"); }
+			{ AL S = mk(1); op("array-move-ctor(other-allocator)"); AL Z(std::move(S), LA(2)); same_al(Z, "array-move-ctor(other-allocator)"); }
+			{ AL S = mk(1); op("array-copy-ctor(other-allocator)"); AL Z(std::as_const(S), LA(2)); same_al(Z, "array-copy-ctor(other-allocator)"); }
+			count("op:array-copy/assign(unequal-allocators)"); }
 		count("op:array-copy/assign"); }
 	C19Vis vis{A.data_elements(), m.n()}; Interp<C19Vis, true> I{vis, p};
 	if(c.rng.chance(1, 2)) I.run(A(), m, 0, "root"); else I.run(std::as_const(A)(), m, 0, "root");
